@@ -105,6 +105,20 @@ fn main() {
             explore_harness(&mut rep, &prop, &name, &[2], k, cap, &body, &expected);
         }
     }
+    // a present key is read (get_cloned, the look-up of the parallel lattice insertion) while another thread inserts another
+    // key: the reader must see the value whatever the writer is doing to the shard
+    for (label, ka, kb) in [("same-shard", k1, k_same), ("different-shards", k1, k_diff)] {
+        let name = format!("CRelFullIndex-read-vs-insert-{}", label);
+        if want(&name) {
+            let body = move || -> String {
+                let ind: CRelFullIndex<K, usize> = Default::default();
+                CRelFullIndexWrite::insert_if_not_present(&ind, &ka, 7);
+                let (r, w) = join(|| (ind.get_cloned(&ka), ind.get_cloned(&ka)), || CRelFullIndexWrite::insert_if_not_present(&ind, &kb, 8));
+                format!("reads={:?} inserted={}", r, w)
+            };
+            explore_harness(&mut rep, &prop, &name, &[2], k, cap, &body, "reads=(Some(7), Some(7)) inserted=true");
+        }
+    }
     // one key, all four insert-if-absent calls race on it: exactly one true overall
     if want("CRelFullIndex-ina-one-key-count") {
         let body = move || -> String {
